@@ -57,7 +57,7 @@ fn c04_thunk_state_machine() {
 // @funcs Program::new_pending_expr_thunk, Program::try_value_from_expr
 eval_stubs! {
 #[kani::proof]
-#[kani::unwind(3)]
+#[kani::unwind(6)]
 fn c04_new_thunk_is_lazy() {
     let arena = Arena::new();
     let mut program = bare_program(&arena);
